@@ -6,7 +6,6 @@ REPS = 4
 
 def _classify(c, e, o):
     """name the class of failing input (not the run)"""
-    toks = set(c["base"]) | set(c["ovr"])
     if e["kind"] == "error":
         return "accepted-non-ip-host"
     if o["err"]:
